@@ -108,6 +108,26 @@ CHECKS = {
         "weight lies in the directory-snapshot correspondence. Multi-command OVERWRITE chains are checked one command at a time.",
    technique="Coq proof (loop invariant over the match list; finite-map file system) + directory snapshot differential",
    ref="DESIGN.md 7 C06"),
+ "C18": dict(
+   text="Theorems (closed): C18_cli_table - on the FULL cross product of -com/-src x -files x -json x -formatted-json x -json-file x -formatted-json-file x mode {unset,NEW,NOTHING,OVERWRITE,bogus} "
+        "x -no-output (enumeration proved complete: C18_cross_product_complete) the decision function of main.go rejects exactly the undocumented invocations and otherwise runs with the given "
+        "mode (NEW by default), at most one document of the requested kind on stdout, none under -no-output, JSON files written exactly when named. Tie: the BUILT BINARY over the same cross "
+        "product x {find, replace, failing program} x {one file, several, glob, none matching}: exit status, one-JSON-document stdout equal to the library's result, JSON files, and the directory "
+        "snapshot against the library (complete in the thorough tier, stratified sample in the quick tier).",
+   note="Process exit codes, os.OpenFile flags, stray prints and the flag package are runtime facts the model cannot exhibit: they are observed on the binary. -no-output is read as suppressing the "
+        "JSON files too (main.go returns before writing them). With zero matches the tool prints a human message, which the property does not constrain. Repaired: 03d01b5, 58fc5e5, f3a9d0f, 17e71f7.",
+   technique="Coq proof (finite sweep by vm_compute lifted with forallb_forall over a provably complete enumeration) + exhaustive black-box runs of the built binary",
+   ref="DESIGN.md 7 C18"),
+ "C19": dict(
+   text="Theorems (closed): C19_disjoint_noninterference / C19_results_as_alone - in EVERY interleaving of atomic actions, threads with pairwise disjoint footprints (except mutex-protected "
+        "locations used only inside critical sections that reset them first) compute exactly what they compute alone; C19_footprint_disjoint - the hypothesis for vore's source AS IT IS NOW: "
+        "Generated/Footprint.v is regenerated from /repo by the scanner on every run (package-level variables, readers/writers reachable from Compile/CompileFile/Run/RunFiles outside a mutex, "
+        "engine writes through bytecode/ast values) and the theorem is re-checked against it. Search for a failing schedule: the -race build of the harness (goroutines compiling with and "
+        "without regex groups and running shared/private programs), results compared with sequential ones.",
+   note="Partial by nature: the Go memory model and scheduler are not in the model, the scanner is a trusted syntactic translator, and a race is only exhibited dynamically. The compiled property "
+        "file is coq/Separate/C19.v (kept out of the main build because it depends on the generated file). Repaired: b6af011 (capture_group_number under a mutex).",
+   technique="Coq proof (noninterference over all interleavings) with the hypothesis regenerated from the source by a translator on every run + race-detector harness",
+   ref="DESIGN.md 7 C19"),
  "C20": dict(
    text="Theorems (closed): C20_path_matches_iff - the segment matcher (the Go loop: greedy, backtracking to the last star) decides exactly '* = any run of characters, every other character "
         "itself' for ALL patterns and names, any number of stars (invariant: alternatives of an earlier star are subsumed when a later star is reached); C20_path_matches_total - its loop never "
